@@ -1,5 +1,6 @@
 (** C08 — violations point at the right place in the source file. Pinned statements only. *)
 From Sq Require Import Base.Bytes Pos.Model Pos.Proofs.
+From Sq Require Pos.InFile.
 
 (** For every text and every offset (inside the text or not) the line/column lookup over
     the newline table does not panic and returns: line = 1 + number of newlines before the
@@ -50,6 +51,24 @@ Theorem C08_parent_range : forall ms L, ms <> [] ->
                         snd (m_src m) <= snd (m_src (from_child_markers ms))).
 Proof. exact from_child_markers_range. Qed.
 Print Assumptions C08_parent_range.
+
+(** The clause "that range lies within the file", given the C15 map: for every source, placeholder
+    configuration and capture list under the regex contract, and every list of lexed elements of the
+    rendered text, a violation raised on a token of the file, or on any segment spanning a non-empty
+    set of its tokens, carries a source range inside the source and the line/column of its start. *)
+Theorem C08_in_file : forall src vals caps r els toks,
+  InFile.TC.caps_ok caps 0 (InFile.T.len src) -> InFile.T.process src vals caps = InFile.T.ROk r ->
+  InFile.TI.echain els 0 -> InFile.TI.echain_end els 0 <= InFile.T.len (InFile.T.tf_tpl r) ->
+  InFile.T.iter_segments (InFile.T.tf_sl r) els = Some toks ->
+  let tf := {| tf_source := src; tf_templated := InFile.T.tf_tpl r |} in
+  (forall g, In g toks ->
+     let v := set_position_marker tf (InFile.marker_of g) in
+     range_ok (len src) (v_src v) /\ (v_line v, v_col v) = linecol src (fst (v_src v))) /\
+  (forall ms, ms <> [] -> (forall m, In m ms -> exists g, In g toks /\ m = InFile.marker_of g) ->
+     let v := set_position_marker tf (from_child_markers ms) in
+     range_ok (len src) (v_src v) /\ (v_line v, v_col v) = linecol src (fst (v_src v))).
+Proof. exact InFile.violation_in_file. Qed.
+Print Assumptions C08_in_file.
 
 (** The code before the repairs (fixed: d49d4e5 source_position; 0904983 parse errors). *)
 Theorem C08_legacy_refuted :
